@@ -105,8 +105,10 @@ fn run_batch(out: &mut CaseOut, w: usize, vals: &[i64], via: &[Via], zx_row: boo
         // two one-bit inputs in front, fed by one `bits(2, 2)` entry: the entries that follow sit
         // one place further left in the row than their columns do in the header
         out.class("bits-entry-before-the-values");
-        for (k, n) in ["K1", "K0"].iter().enumerate() {
-            sigs.insert(k, Sig { name: n.to_string(), bits: 1, kind: Kind::In(InVal::Val(0)) });
+        // (K1 is 3 bits wide and the value has more than two bits: each entry of a bits group is
+        // one bit of the value, whatever the width of the signal it lands on)
+        for (k, (n, b)) in [("K1", 3usize), ("K0", 1)].iter().enumerate() {
+            sigs.insert(k, Sig { name: n.to_string(), bits: *b, kind: Kind::In(InVal::Val(0)) });
             header.insert(k, n.to_string());
         }
     }
@@ -138,7 +140,7 @@ fn run_batch(out: &mut CaseOut, w: usize, vals: &[i64], via: &[Via], zx_row: boo
             es.extend((0..64).map(|k| Entry::X(k % 2 == 0)));
         }
         if with_bits {
-            es.insert(0, Entry::Bits(2, Expr::lit(2)));
+            es.insert(0, Entry::Bits(2, Expr::lit(14)));
         }
         stmts.push(Stmt::Row(id, es));
         id += 1;
@@ -150,7 +152,7 @@ fn run_batch(out: &mut CaseOut, w: usize, vals: &[i64], via: &[Via], zx_row: boo
             es.extend((0..64).map(|k| Entry::X(k % 2 == 0)));
         }
         if with_bits {
-            es.insert(0, Entry::Bits(2, Expr::lit(2)));
+            es.insert(0, Entry::Bits(2, Expr::lit(14)));
         }
         stmts.push(Stmt::Row(id, es));
         row_vals.push(None);
@@ -207,7 +209,7 @@ fn run_batch(out: &mut CaseOut, w: usize, vals: &[i64], via: &[Via], zx_row: boo
             }
         }
         if with_bits && (get_in(sent, "K1") != Some(InVal::Val(1)) || get_in(sent, "K0") != Some(InVal::Val(0))) {
-            out.fail("c07:bits-entry", format!("bits(2, 2) must drive K1 = 1, K0 = 0; the driver received {:?} {:?}", get_in(sent, "K1"), get_in(sent, "K0")));
+            out.fail("c07:bits-entry", format!("bits(2, 14) must drive K1 = 1, K0 = 0 (bits 1 and 0 of 14, one bit per entry); the driver received {:?} {:?}", get_in(sent, "K1"), get_in(sent, "K0")));
             return;
         }
         match rv {
@@ -287,7 +289,7 @@ impl Property for C07 {
         "C07"
     }
     fn rule(&self) -> &'static str {
-        "profile `width`: (a) exhaustive sweep of every width 1..=64 x a 40-value boundary pool (0, +-1, MIN, MAX, 2^w-1, 2^w, 2^w+1, -2^w, 2^(w-1), ...) delivered directly / through arithmetic / through let, 8 values per program, on an input column, an output's expected column, a bidirectional signal's input and `_out` column and a virtual signal's column, plus a `Z x z Z X` row, in every second batch behind a `bits(2, 2)` entry feeding two extra one-bit inputs (row entries and header columns then no longer line up one to one), in every fifth batch with 64 more one-bit outputs behind that are expected `X` in every row (columns 64 and up); (b) random (width, 64-bit value) pairs, values returning to the one two rows earlier (v, w, v), in a third of the programs the driver fails on one row's call and the caller goes on. Oracle: value & (2^w-1) in u64 (w=64 unchanged) against the input as received by the driver, row.inputs and the expected values; virtual column keeps 64 bits. Non-trivial: w >= 33 or the value has bits above w; distinct by (width, values, path)."
+        "profile `width`: (a) exhaustive sweep of every width 1..=64 x a 40-value boundary pool (0, +-1, MIN, MAX, 2^w-1, 2^w, 2^w+1, -2^w, 2^(w-1), ...) delivered directly / through arithmetic / through let, 8 values per program, on an input column, an output's expected column, a bidirectional signal's input and `_out` column and a virtual signal's column, plus a `Z x z Z X` row, in every second batch behind a `bits(2, 14)` entry feeding two extra inputs (3 and 1 bits wide: each gets exactly one bit of the value) (row entries and header columns then no longer line up one to one), in every fifth batch with 64 more one-bit outputs behind that are expected `X` in every row (columns 64 and up); (b) random (width, 64-bit value) pairs, values returning to the one two rows earlier (v, w, v), in a third of the programs the driver fails on one row's call and the caller goes on. Oracle: value & (2^w-1) in u64 (w=64 unchanged) against the input as received by the driver, row.inputs and the expected values; virtual column keeps 64 bits. Non-trivial: w >= 33 or the value has bits above w; distinct by (width, values, path)."
     }
     fn cases(&self, tier: Tier) -> u64 {
         match tier {
